@@ -52,6 +52,15 @@ CHECKS["C18"] = ("exploration",
     "skiplist findings do not hide regressions outside their class.",
     "ASan quarantine 64 MiB; known findings listed in known_findings.json", "DESIGN.md C18")
 
+CHECKS["C14"] = ("exploration",
+    "generated literal printf-style calls compiled into batch programs: decode(encode(x)) compared with glibc "
+    "vsnprintf, exact-size heap buffers under ASan/UBSan-bounds",
+    "Every generated (format, arguments) pair is encoded into a heap block of exactly max_len and decoded into a "
+    "block of exactly str_len, so a single byte out of bounds is an ASan report; the decoded text must equal "
+    "vsnprintf's whenever it fits. Formats cover the property's grammar with 1-12 directives in any order so that "
+    "state carried between directives is exercised.",
+    "glibc vsnprintf as reference; x86-64 LP64 (l, ll, z, t, j all 64 bit)", "DESIGN.md C14")
+
 REASON_PENDING = "check not registered yet in this revision (implementation in progress, see DESIGN.md section 7)"
 
 
